@@ -178,11 +178,13 @@ func (s *Syncer[H]) localHead(ctx context.Context) (H, error) {
 	// pending head is the latest known subjective head and a sync target
 	// if it is empty, no sync is in progress
 	pendHead := s.pending.Head()
-	if !pendHead.IsZero() {
-		return pendHead, nil
-	}
 	// if pending is empty - get the latest stored/synced head
 	head, err := s.store.Head(ctx)
+	if !pendHead.IsZero() && (err != nil || pendHead.Height() > head.Height()) {
+		return pendHead, nil
+	}
+	// NOTE: pending may still keep a head that got stored via another route meanwhile
+	// (concurrent Head callers racing with the syncing routine), then the stored head is the latest one
 	if err != nil {
 		return head, fmt.Errorf("local store head: %w", err)
 	}
